@@ -650,23 +650,68 @@ func (p *pkgFiles) copyFacts(o *out, recv string) {
 	o.pf("def copyFresh_%s : List (List UInt8) := [%s]\n\n", recv, strings.Join(items, ", "))
 }
 
-// getterCopies: does the exported getter return `.Copy()` of what it looked up?
+// getterCopies: does the exported getter return `.Copy()` of what it looked up? True iff the body contains at
+// least one expression denoting a TRACKED object (a lookupChannel/lookupUser call, an index into the state's channels
+// / users maps, the value variable of a range over them) and EVERY such expression is the receiver of an immediate
+// `.Copy()` call — one path handing out the live pointer makes it false.
 func (p *pkgFiles) getterCopies(o *out, names []string) {
 	var items []string
 	for _, n := range names {
 		fd := p.funcDecl(n, "Client")
-		copies := false
+		tracked, copied := 0, 0
 		if fd != nil {
+			var stack []ast.Node
+			rangeVals := map[string]bool{}
+			isStateMap := func(e ast.Expr) bool {
+				se, ok := e.(*ast.SelectorExpr)
+				return ok && (se.Sel.Name == "channels" || se.Sel.Name == "users")
+			}
 			ast.Inspect(fd.Body, func(nd ast.Node) bool {
-				if ce, ok := nd.(*ast.CallExpr); ok {
-					if se, ok := ce.Fun.(*ast.SelectorExpr); ok && se.Sel.Name == "Copy" {
-						copies = true
+				if nd == nil {
+					stack = stack[:len(stack)-1]
+					return true
+				}
+				isTracked := false
+				switch x := nd.(type) {
+				case *ast.RangeStmt:
+					if isStateMap(x.X) {
+						if id, ok := x.Value.(*ast.Ident); ok && id.Name != "_" {
+							rangeVals[id.Name] = true
+						}
+					}
+				case *ast.CallExpr:
+					if se, ok := x.Fun.(*ast.SelectorExpr); ok && (se.Sel.Name == "lookupChannel" || se.Sel.Name == "lookupUser") {
+						isTracked = true
+					}
+				case *ast.IndexExpr:
+					if isStateMap(x.X) {
+						isTracked = true
+					}
+				case *ast.Ident:
+					if rangeVals[x.Name] {
+						// uses of the range value variable (not its declaration in the RangeStmt header)
+						if len(stack) > 0 {
+							if rs, ok := stack[len(stack)-1].(*ast.RangeStmt); !(ok && rs.Value == ast.Expr(x)) {
+								isTracked = true
+							}
+						}
 					}
 				}
+				if isTracked {
+					tracked++
+					if len(stack) >= 2 {
+						if se, ok := stack[len(stack)-1].(*ast.SelectorExpr); ok && se.Sel.Name == "Copy" && se.X == nd.(ast.Expr) {
+							if ce, ok := stack[len(stack)-2].(*ast.CallExpr); ok && ce.Fun == ast.Expr(se) {
+								copied++
+							}
+						}
+					}
+				}
+				stack = append(stack, nd)
 				return true
 			})
 		}
-		items = append(items, fmt.Sprintf("(%s, %v)", leanBytes(n), copies))
+		items = append(items, fmt.Sprintf("(%s, %v)", leanBytes(n), tracked > 0 && tracked == copied))
 	}
 	o.pf("def getterCopies : List (List UInt8 × Bool) := [%s]\n\n", strings.Join(items, ", "))
 }
@@ -810,7 +855,11 @@ func main() {
 		{"Clear", "Caller", "Clear"}, {"ClearAll", "Caller", "ClearAll"}, {"AddTmp", "Caller", "AddTmp"},
 		{"Add", "Caller", "Add"}, {"AddBg", "Caller", "AddBg"}, {"AddHandler", "Caller", "AddHandler"},
 		{"cuidToID", "Caller", "cuidToID"}, {"recoverHandlerPanic", "", "recoverHandlerPanic"},
-		{"setEcho", "Client", "setEcho"}, {"reset", "state", "state_reset"}, {"Close", "ircConn", "ircConn_Close"}, {"Pong", "Commands", "Cmd_Pong"}, {"Ping", "Commands", "Cmd_Ping"}, {"handlePING", "", "handlePING"}} {
+		{"setEcho", "Client", "setEcho"}, {"reset", "state", "state_reset"}, {"Close", "ircConn", "ircConn_Close"}, {"Pong", "Commands", "Cmd_Pong"}, {"Ping", "Commands", "Cmd_Ping"}, {"handlePING", "", "handlePING"},
+		// the outgoing path (C03 C16) and the transport-policy plumbing (C10)
+		{"rate", "ircConn", "ircConn_rate"}, {"encode", "ircConn", "ircConn_encode"}, {"newConn", "", "newConn"},
+		{"reset", "strictTransport", "sts_reset"}, {"expired", "strictTransport", "sts_expired"}, {"enabled", "strictTransport", "sts_enabled"},
+		{"server", "Client", "Client_server"}} {
 		p.skeleton(sk, f[0], f[1], f[2])
 	}
 	cg := load(filepath.Join(*repo, "internal/ctxgroup"))
@@ -822,6 +871,9 @@ func main() {
 		*skelPath = filepath.Join(filepath.Dir(*outPath), "Skel.lean")
 	}
 	writeIfChanged(*skelPath, sk.b.String())
+
+	// translated function bodies (Girc/Gen/Funcs.lean), see translate.go
+	translateAll(p, *repo, filepath.Join(filepath.Dir(*outPath), "Funcs.lean"))
 
 	// lock-discipline facts (C12), in their own module
 	if *locksPath == "" {
